@@ -4,6 +4,9 @@ Task "single": one call with generated options.  Always: shape and dtype of y0. 
 saying "does not converge") => the *returned tensor*, re-inserted into the user function, passes exactly the test the method
 promises (derived from the TerminationCondition classes, see `silent_claims`).  Contractive class with adequate options =>
 the call must be silent and the point lies within residual-bound/sigma of the independent reference solution.
+gd/adam (minimize): every evaluation of the caller's objective is traced; a silent return needs two consecutively evaluated points that meet
+one of the documented OR-type criteria on the CHANGE of f / x (`stagnation_test_met`); the objective is also handed over shifted by a constant
+so that its value at y0 is exactly 0 / tiny / ordinary (`phishift`) — the value itself must never decide the stop.
 Task "allmethods": one contractive problem, every built-in method of the chosen API with the same tolerance: all silent, all
 within f_tol/sigma of the reference solution (hence pairwise within twice that).
 Task "anyproblem": the 'silent => the returned tensor itself meets the test' part (and shape/dtype) holds for ANY problem, so it is
@@ -27,8 +30,14 @@ PID = "C03"
 RULE = ("problem families with a unique known solution (tanh contraction, strongly monotone D y + eps tanh, holomorphic complex c sin on the "
         "unit ball, strongly convex quadratic + log cosh), n 1..8 (thorough 16), y of shape (*batch,n) or (n,k), f64/f32/c128; APIs rootfinder / "
         "equilibrium / minimize x methods newton, broyden1, broyden2, linearmixing, anderson_acc, gd, adam (lower-case names) x initial guess "
-        "(zero, ball, near the solution, the solution itself) x f_tol, f_rtol, x_tol, x_rtol, maxiter (incl. far too small), line search on/off, "
-        "alpha, max_rank, msize/beta/lmbda, step/gamma. Non-trivial = the user function was evaluated at least 3 times (>= 2 iterations) and y0 "
+        "(zero, sphere of radius 0.5 / 3 / 1e4 / 1e6 [far-away: initial residual up to ~1e7, eps |f(y0)| above the tight f_tol settings; not for the complex "
+        "family], near the solution, the solution itself) x f_tol, f_rtol, x_tol, x_rtol, maxiter (incl. far too small), line search on/off, "
+        "alpha, max_rank, msize/beta/lmbda, step/gamma. minimize: the objective is handed over as the family gives it (value exactly 0 at y0 = 0, no constant "
+        "term) or plus a constant chosen so that its VALUE at y0 is exactly 0 / +-3e-11 / 3e-9 (key phishift; below / around the absolute f_tol settings "
+        "1e-5..1e-10 of gd/adam), gd with only x_tol or only the absolute f_tol active (step in {0.5,1}/lmax, gamma 0), with momentum, with the defaults; "
+        "adam with f_tol alone or with the default relative tolerances; every evaluation of the objective by gd/adam is traced (label "
+        "silent_with_|f(y0)|<f_tol:<method> counts the silent runs whose objective value at y0 is below f_tol). "
+        "Non-trivial = the user function was evaluated at least 3 times (>= 2 iterations) and y0 "
         "differs from the reference solution by more than 1e-6; distinct by canonical case. Task anyproblem (no contractivity, only shape/dtype and "
         "silent => test met; warned runs counted): equilibrium x all five methods on relaxation maps y - K f(y) of the four families with K lmax = rho "
         "in {1.5, 2.2, 3, 4, 5, 8} (eigenvalues of the map's Jacobian down to 1 - rho; label silent:specrad_of_map_at_returned_point), and rootfinder / "
@@ -41,16 +50,25 @@ ASSUMPTIONS = [
     "f_tol=None means the code's default 1e-6 (root solvers / anderson_acc); the residual is re-evaluated with the same function on the "
     "returned tensor, slack 1e-12 relative (reduction order only)",
     "root solvers / anderson_acc promise (AND of) |f| < f_tol and, root solvers only, |f| < f_rtol |f(y0)| (anderson's reference norm is internal); "
-    "gd/adam promise no residual bound (OR-type x/f stagnation test), only the objective claim",
+    "gd/adam promise no residual bound but an OR-type stagnation test on the CHANGE of f and of x between iterations (documented f_tol / f_rtol / x_tol / "
+    "x_rtol, defaults 0, 1e-8, 0, 1e-8), plus the objective claim; a silent gd/adam return (maxiter != 0) therefore needs two consecutively evaluated "
+    "points a, b (every evaluation of the caller's objective is traced) with |f_b - f_a| < f_tol or < f_rtol max(|f_a|,|f_b|) or |b - a| < x_tol or "
+    "< x_rtol max(|a|,|b|), each with slack 1 + 1000 N eps; the VALUE of f (zero at y0, shifted by a constant) never enters a criterion, there is no "
+    "iterate before y0 to compare with; extra evaluations only add pairs (lenient)",
     "minimize: phi(y) <= phi(y0) + f_tol^2/(2 sigma) + rounding for root-finding methods (strong convexity: phi(y)-phi* <= |grad|^2/(2 sigma)); "
     "gd/adam: phi(y) <= phi(y0) + rounding for all options (the statement's claim; y0 is among the points they evaluate); rounding = 64 N eps (|phi|+lmax|y0|^2+1)",
     "must-converge class = y -> y - f(y) has Lipschitz constant <= 0.5, f64/c128, default algorithm parameters (alpha, max_rank, line search, msize, beta, "
-    "lmbda, maxiter), no x_rtol/f_rtol, x_tol >= 1e-9, f_tol >= 1e-11 sqrt(N); broyden1/broyden2 additionally |f(y0)| >= 0.05 (their default first step has "
+    "lmbda, maxiter), initial guess within radius 3 (from the far-away guesses of radius 1e4 / 1e6 no convergence is demanded: only shape/dtype, "
+    "silent => test met and the distance bound residual/sigma, none of which depends on y0), no x_rtol/f_rtol, x_tol >= 1e-9, f_tol >= 1e-11 sqrt(N); broyden1/broyden2 additionally |f(y0)| >= 0.05 (their default first step has "
     "length 0.5 max(|y0|,1) whatever the residual, SciPy's heuristic, so an already converged guess is thrown away with an inverse-Jacobian estimate of "
     "norm 0.5 max(|y0|,1)/|f(y0)|); there every method must be silent and |y - y*| <= residual/sigma + 1e-10(1+|y*|)",
     "gd in the class: gamma=0, step in [0.5,1]/lmax, only x_tol active, maxiter 5000: the last step had |grad phi(x_k)| < x_tol/step and "
     "|I - step H| <= 1, the returned point has an objective no larger than x_{k+1}'s, so |y-y*|^2 <= (x_tol/(step sigma))^2 + 2 rounding/sigma "
-    "(also asserted for silent runs with tiny maxiter); adam has no derived accuracy bound and is left out of the cross-method comparison",
+    "(also asserted for silent runs with tiny maxiter); gd in the class with only the absolute f_tol active (x_tol = x_rtol = f_rtol = 0): two consecutive "
+    "iterates had |phi(x_{k-1}) - phi(x_k)| < f_tol + 2 rounding, descent lemma for step s <= 1/lmax: that decrease is >= (s/2)|grad phi(x_{k-1})|^2, strong "
+    "convexity: phi(x_{k-1}) - phi* <= |grad|^2/(2 sigma), monotone descent and best-point return: |y-y*|^2 <= 2 (f_tol + 2 rounding)/(s sigma^2) + 2 rounding/sigma "
+    "(independent of any constant added to the objective; |shift| enters the rounding magnitude); adam has no derived accuracy bound and is left out of "
+    "the cross-method comparison (it is held to shape/dtype, the objective claim and the stagnation test)",
     "complex family: uniqueness only inside the unit ball; a returned point outside it is held to the residual test only",
     "reference solution: damped Newton with closed-form Jacobians in f64/c128, self-certified to 1e-12",
     "task anyproblem: 'silent => the returned tensor meets the promised test' needs no assumption on the problem, so no convergence is demanded there; "
@@ -157,6 +175,8 @@ def in_class(prob, case, method, opts, N, res0):
     the class therefore requires |f(y0)| >= 0.05 for them (alpha <= 10 max(|y0|,1))."""
     if case["dtype"] == "f32" or prob.L is None or prob.L > 0.5 or not prob.unique or prob.K is not None:
         return False
+    if case["y0"]["kind"] == "ball" and case["y0"]["r"] > 3.0:
+        return False        # far-away guesses (radius 1e4 / 1e6): no convergence demanded, only 'silent => test met' and the distance bound
     if method in ("gd", "adam"):
         # gd with gamma=0, step <= 1/lmax contracts by 1 - step*sigma >= ... per iteration: 5000 iterations reach any x_tol used here
         return bool(opts.get("_class")) and opts.get("maxiter", 0) >= 5000
@@ -303,7 +323,8 @@ def check_one(case, prob, api, method, opts, y0, ystar, labels, g):
 
 def base_labels(case, prob):
     return ["api=" + case["api"], "fam=" + case["fam"], "dtype=" + case["dtype"], "layout=%s%d" % (case["layout"], len(case["batch"])),
-            "y0=" + case["y0"]["kind"], "contractive=%s" % (prob.L is not None and prob.L <= 0.5)]
+            "y0=" + case["y0"]["kind"], "contractive=%s" % (prob.L is not None and prob.L <= 0.5)] + (
+                ["y0_radius=%g" % case["y0"]["r"]] if case["y0"]["kind"] == "ball" else [])
 
 
 def run_single(case):
@@ -484,7 +505,9 @@ def problem_st(draw, tier, api, contractive=None):
     bscale = draw(st.sampled_from([0.0, 0.5, 1.0, 1.0, 2.0]))
     y0kind = draw(st.sampled_from(["zero", "zero", "ball", "ball", "near", "solution"]))
     if y0kind == "ball":
-        r = draw(st.sampled_from([0.5] if fam == "csin" else [0.5, 3.0]))
+        # far-away guesses (families with linear growth only): |f(y0)| ~ lmax r up to ~1e7, so that eps |f(y0)| exceeds the tight f_tol settings
+        # (a stopping shortcut measured against the initial residual, not against the tolerance the caller asked for, shows there)
+        r = draw(st.sampled_from([0.5] if fam == "csin" else [0.5, 3.0, 3.0, 1e4, 1e6]))
     elif y0kind == "near":
         r = draw(st.sampled_from([1e-2, 1e-5, 1e-8]))
     else:
